@@ -1387,6 +1387,9 @@ func (t *Topic) subscriptionReply(asChan bool, msg *ClientComMessage) error {
 		if acs, err := types.ParseAcs([]byte(modeChanged.Mode)); err == nil {
 			hasJoined = acs.IsJoiner()
 		}
+	} else if pud := t.perUser[asUid]; !(pud.modeGiven & pud.modeWant).IsJoiner() {
+		// The mode has not changed and it does not allow joining.
+		hasJoined = false
 	}
 
 	if hasJoined {
